@@ -465,7 +465,7 @@ def check(ctx):
         table = None
     ok = isinstance(table, dict) and len(table) >= 6 and all(isinstance(v, Symbol) and v.name == "hashlib.%s" % k for k, v in table.items())
     expect = {"md5", "sha1", "sha224", "sha256", "sha384", "sha512"}
-    ok = ok and set(table) == expect
+    ok = ok and set(table) >= expect        # more algorithms may be offered; each name still means hashlib's function of that name
     ctx.ob("algorithms.table", CF, "ALGORITHMS", ok, "each of the six names maps to hashlib.<name>" if ok else
            "the algorithm table is not name -> hashlib.<name> for the six offered algorithms: %s" % (table,))
     init = model.method("ChallengeField", "__init__")
